@@ -936,7 +936,7 @@ def pipeline_case(draw):
     return {"mode": mode, "funcs": funcs, "validate": validate}
 
 
-def campaigns(tier):
+def _base_campaigns(tier):
     cs = [
         Campaign("pairs", body_pair, pair_strategy(), quick=16000, thorough=300000,
                  describe="is_type_compatible(A,B) == ref(A,B) on independent and related pairs, depth <= 3"),
@@ -1004,3 +1004,12 @@ PREDICATES = {
     "annotated_union_on_source_side": _pred_annotated_union_source,
     "constrained_typevar_on_required_side": _pred_constrained_typevar_required,
 }
+
+
+def campaigns(tier):
+    camps = list(_base_campaigns(tier))
+    if tier == "thorough":  # coverage-guided search over the same structured cases (fuzz/hyp_fuzz.py)
+        from vlib.core import cov_fuzz_campaign
+
+        camps.append(cov_fuzz_campaign(PID, [('laws', 40000), ('pairs', 60000), ('pipelines', 20000)]))
+    return camps
